@@ -27,6 +27,7 @@ def main():
         print('built', d)
     vlib.build_harness('unit', 'asan', exclude=['util/crc32c.c'])
     vlib.build_harness('wl', 'asan', exclude=['db_impl.c'])
+    vlib.build_harness('conc', 'plain', exclude=['db_impl.c', 'util/port.c'], extra_src=['sched_port.c'])
     return 0
 
 
